@@ -308,7 +308,7 @@ def interp_tilted(ego_rot, rot_a, rot_b, rot_c):
 
 def obligations(pid, tier):
     quick = tier == "quick"
-    ns = [1, 2, 3] if quick else [1, 2, 3, 4, 5]
+    ns = [1, 2, 3] if quick else [1, 2, 3, 4, 5, 6]
     patterns = [(("a",), ("a",)), (("a", "b"), ("a",)), (("a",), ("a", "c")), (("a", "b"), ("c", "a")), ((), ("c",))]
     modes = ["sym_time", "sym_pose"] + ([] if quick else ["both"])
     return [
@@ -343,7 +343,7 @@ def meta(pid):
                             "frame with 5 appear/disappear patterns, either query time symbolic (poses concrete) or poses "
                             "symbolic (query on a 5-point grid incl. both neighbour stamps); tilted ego attitude (exact 3-D rotations) "
                             "with ego-frame objects, symbolic positions and query time",
-                   "thorough": "1..5 frames; additionally poses and query time symbolic at once (non-linear)"},
+                   "thorough": "1..6 frames; additionally poses and query time symbolic at once (non-linear)"},
         "outside": ["slerp between two *distinct* rotations with roll/pitch (3-D rotations are covered where the interpolated "
                     "heading is an end point: unchanged heading, objects present in one neighbour, constant ego attitude)", "raw sensor data copying", "unordered frame lists",
                     "2-D objects (interpolate_dynamic_object2d)"],
